@@ -24,7 +24,10 @@ Ks == {0, 1, 2}                                               \* additional mult
 
 \* conf2: a second bearer confirmation, comfortably valid, before or after the one the scenario varies
 Conf2 == {"none", "validFirst", "validSecond"}
-Scn == [present : SUBSET Bounds, focus : Focus, d : Ds, k : Ks, slack : Slacks, spelling : Spellings, conf2 : Conf2]
+\* stmt2: a second AuthnStatement after the one the scenario varies, its SessionNotOnOrAfter comfortably valid or long past.
+\* (The library takes exactly one statement: two are refused as such, which the acceptance side leaves open.)
+Stmt2 == {"none", "valid", "expired"}
+Scn == [present : SUBSET Bounds, focus : Focus, d : Ds, k : Ks, slack : Slacks, spelling : Spellings, conf2 : Conf2, stmt2 : Stmt2]
 
 Comfort(b) == IF b \in {"cNB", "sNB"} THEN -3 * Day ELSE 3 * Day
 
@@ -52,6 +55,7 @@ WellFormed(s) ==
     /\ (s.focus \in {"issueLow", "issueHigh"} => s.d # -Far)
     /\ (s.conf2 # "none" => s.focus \in {"sNOOA", "sNB", "sOrder"} /\ s.k = 0 /\ s.spelling = "Z")
     /\ (s.spelling \in {"offPlus", "offMinus"} => s.k = 0 /\ s.slack \in {0, 60})
+    /\ (s.stmt2 # "none" => s.conf2 = "none" /\ s.k = 0 /\ s.spelling = "Z" /\ s.slack \in {0, 60} /\ s.d \in {-Far, Far} /\ s.focus \in {"sess", "cNOOA"})
 
 VARIABLES scn, pc, verdict, nooa
 vars == <<scn, pc, verdict, nooa>>
@@ -76,7 +80,7 @@ Offsets == {"offPlus", "offMinus"}
 IssueInstant == /\ pc = "issue"
                 /\ IF scn.spelling \in Offsets THEN Reject
                    ELSE IF Issue(scn) < 0 - Day - scn.slack \/ Issue(scn) >= Day + scn.slack THEN Reject ELSE Goto("authn")
-AuthnStmt    == pc = "authn" /\ IF TooOld("sess") THEN Reject ELSE Goto("conditions")
+AuthnStmt    == pc = "authn" /\ IF scn.stmt2 # "none" \/ TooOld("sess") THEN Reject ELSE Goto("conditions")
 Conditions   == /\ pc = "conditions"
                 /\ IF \/ (P("cNB") /\ P("cNOOA") /\ V("cNOOA") < V("cNB"))
                       \/ TooOld("cNOOA") \/ TooEarly("cNB")
@@ -99,6 +103,7 @@ Bearer == /\ pc = "bearer"
 NooaBounds == {"cNOOA", "sNOOA", "sess"}
 NbBounds == {"cNB", "sNB"}
 MustReject ==
+    \/ scn.stmt2 = "expired"                                        \* any SessionNotOnOrAfter that is present
     \/ \E b \in NooaBounds : P(b) /\ 0 - scn.slack > V(b)          \* now, widened, later than a NotOnOrAfter
     \/ \E b \in NbBounds : P(b) /\ scn.slack < V(b)                \* now, widened, earlier than a NotBefore
     \/ (P("cNB") /\ P("cNOOA") /\ V("cNB") > V("cNOOA"))
@@ -106,6 +111,7 @@ MustReject ==
     \/ Issue(scn) > Day + scn.slack \/ Issue(scn) < 0 - Day - scn.slack
 \* profile-conformant shape, every present bound satisfied with more than the allowance to spare
 MustAccept ==
+    /\ scn.stmt2 = "none"
     /\ scn.spelling \notin Offsets                 \* not the UTC form: not profile-conformant
     /\ "sNOOA" \in scn.present /\ "sNB" \notin scn.present
     /\ \A b \in NooaBounds : P(b) => V(b) > scn.slack
@@ -117,7 +123,7 @@ ExpectedExpiry == IF P("sess") THEN V("sess") ELSE V("cNOOA")
 
 Emit == /\ pc = "done" /\ pc' = "emitted"
         /\ PrintT(<<"CASE", ToJson([scn |-> [present |-> scn.present, focus |-> scn.focus, d |-> scn.d, k |-> scn.k,
-                                             slack |-> scn.slack, spelling |-> scn.spelling, conf2 |-> scn.conf2],
+                                             slack |-> scn.slack, spelling |-> scn.spelling, conf2 |-> scn.conf2, stmt2 |-> scn.stmt2],
                                     vals |-> [b \in Bounds |-> IF P(b) THEN ToString(V(b)) ELSE "absent"], issue |-> Issue(scn),
                                     model |-> verdict, mustAccept |-> MustAccept, mustReject |-> MustReject,
                                     expiry |-> IF ExpiryKnown THEN ToString(ExpectedExpiry) ELSE "unspecified"])>>)
